@@ -187,12 +187,25 @@ def prop(case):
     npat = len(case['pats'])
     clk = case['ndata']
     inner = [False]
+    edited = [False]
 
     def one_circuit(nl_, tag, order):
-        b = build(nl_)
+        hold = (case['brk'] >> 11) % 3 == 0
+        b = build(dict(nl_, holdph=True) if hold else nl_)
         c = b.c
         if case['latch']:       # a latch next to the scan flip-flops: it has a row in s_nodes but belongs to no chain
             Node(c, 'lat0', 'LATCH')
+        n_ = phase(b, c, tag, order)
+        if hold:
+            # edit history between two assembling calls on the same parse result and the same circuit object: removing the placeholder
+            # (node index 0) moves the spare flip-flop created last in front of the chain flip-flops; every row of s_nodes after the
+            # ports shifts, the number of rows stays the same
+            b.placeholder.remove()
+            phase(b, c, tag + 'after a node removal moved a flip-flop to node index 0 (same circuit object, same parse result): ', (order + 1) % 4)
+            edited[0] = True
+        return n_
+
+    def phase(b, c, tag, order):
         s_len = len(c.s_nodes)
         where = {id(n): i for i, n in enumerate(b.s_order())}         # one pass (s_pos is linear per call)
         pi_rows = [where[id(n)] for n in b.pi]
@@ -302,6 +315,7 @@ def prop(case):
         nl2 = dict(nl, ports=list(reversed(nl['ports'])), strev=True, rev=not nl.get('rev'))
         one_circuit(nl2, 'second circuit with other port/state order: ', (case['brk'] // 3) % 4)
         labels.append('parse_result_used_for_two_circuits')
+    if edited[0]: labels.append('circuit_edited_between_assembling_calls')
     if inner[0]: labels.append('marker_inside_chain>=3')
     if len(chains) > 1: labels.append('several_chains')
     if any(p['style'] != 'sa' for p in case['pats']): labels.append('loc_patterns')
